@@ -10,6 +10,9 @@ func scalar(v uint64) MArg {
 }
 
 func aggOf(elided bool, vs ...MArg) MArg {
+	if vs == nil {
+		vs = []MArg{} // an empty list, not JSON null
+	}
 	return MArg{Agg: &MAgg{Elided: elided, Values: vs}}
 }
 
@@ -112,6 +115,10 @@ func (f SigFamily) Draw(r *Rng, spread int) MSig {
 	s.Created.Calls = []MCall{}
 	for _, k := range f.frames {
 		av := argVariants[r.Intn(min(len(argVariants), 2+spread*3))]
+		if r.Chance(1, 4) {
+			// the whole catalogue now and then: inaccurate ('?') values, nested aggregates, boundary values
+			av = argVariants[r.Intn(len(argVariants))]
+		}
 		c := mkCall(k, av, r.Chance(1, 12))
 		if f.proc {
 			for _, v := range av {
